@@ -284,7 +284,7 @@ func init() {
 			return s
 		},
 		Run:  c12Run,
-		Rule: "signatures built with reflect.FuncOf/MakeFunc (each is a recording helper): 0..2 (3 thorough) fixed parameters over {string,int,interface{},*struct,*other-struct} x tail {none, map[string]interface{}, hctx.Map, plush.HelperContext, hctx.HelperContext, an application-defined interface with the same method set, map+context in all typings, ...int, ...string, ...interface{}} x result shapes {(), (T), (T,nil), (T,err), (nil error), (error)}; calls with every argument list of length 0..3 (4 thorough) over {nil, \"s\", 1, hash literal, array literal, true, typed nil pointer and non-nil pointer from the context}, each argument wrapped in a logging identity helper, without a block, with a block and with an empty block, after an earlier completed helper call with more arguments. Reference binder: too many / non-assignable => error naming the callee, function not invoked; otherwise invoked exactly once with every supplied value unchanged (nil => zero value of the parameter type, also in the variadic tail), omitted trailing map => non-nil empty map of the call's own (every recording helper writes a mark into the map it received), omitted helper context => context whose HasBlock()/Block() reflect the call's block; argument log duplicate-free, in source order (a prefix when binding fails); first result is the value, non-nil trailing error fails the render. Omitted ordinary parameters are unspecified (either error or zero-fill accepted, supplied positions still checked). Polymorphic call sites: one method call node evaluated with receivers of 3 struct types (and a pointer) whose method sets put the name at different positions, in a loop over a mixed slice and as consecutive executions of one parsed template: the named method is invoked with the supplied argument. Indexed receivers: methods called on rs[i] / m[k] / h.Rs[i] / a helper result's element with arguments that mention the indexed variable (the whole list, another element, len of it): the arguments arrive unchanged. Chained calls: (T, error) functions and methods followed by nothing / field / method / nested path / index, in 8 statement forms, succeeding and failing: invoked once, arguments evaluated once, a failing call fails the render with the function's error wrapped and its value is never used. Non-trivial: at least one argument or an auto-supplied parameter.",
+		Rule: "signatures built with reflect.FuncOf/MakeFunc (each is a recording helper): 0..2 (3 thorough) fixed parameters over {string,int,interface{},*struct,*other-struct} x tail {none, map[string]interface{}, hctx.Map, plush.HelperContext, hctx.HelperContext, an application-defined interface with the same method set, map+context in all typings, ...int, ...string, ...interface{}} x result shapes {(), (T), (T,nil), (T,err), (nil error), (error)}; calls with every argument list of length 0..3 (4 thorough) over {nil, \"s\", 1, hash literal, array literal, true, typed nil pointer and non-nil pointer from the context}, each argument wrapped in a logging identity helper, without a block, with a block and with an empty block, after an earlier completed helper call with more arguments. Reference binder: too many / non-assignable => error naming the callee, function not invoked; otherwise invoked exactly once with every supplied value unchanged (nil => zero value of the parameter type, also in the variadic tail), omitted trailing map => non-nil empty map of the call's own (every recording helper writes a mark into the map it received), omitted helper context => context whose HasBlock()/Block() reflect the call's block; argument log duplicate-free, in source order (a prefix when binding fails); first result is the value, non-nil trailing error fails the render. Omitted ordinary parameters are unspecified (either error or zero-fill accepted, supplied positions still checked). Polymorphic call sites: one method call node evaluated with receivers of 3 struct types (and a pointer) whose method sets put the name at different positions, in a loop over a mixed slice and as consecutive executions of one parsed template: the named method is invoked with the supplied argument. Error result shapes: trailing results declared as *E, E (value type), error holding a typed nil, (T, int, error): nil does not fail the render, non-nil does. Indexed receivers: methods called on rs[i] / m[k] / h.Rs[i] / a helper result's element with arguments that mention the indexed variable (the whole list, another element, len of it): the arguments arrive unchanged. Chained calls: (T, error) functions and methods followed by nothing / field / method / nested path / index, in 8 statement forms, succeeding and failing: invoked once, arguments evaluated once, a failing call fails the render with the function's error wrapped and its value is never used. Non-trivial: at least one argument or an auto-supplied parameter.",
 		Bound: func(th bool) string {
 			if th {
 				return "<=3 fixed parameters, <=4 arguments"
@@ -298,6 +298,7 @@ func c12Run(t *engine.T, shard string) {
 	if shard == "chain" {
 		c12Chain(t)
 		c12Indexed(t)
+		c12ErrorShapes(t)
 		return
 	}
 	if shard == "poly" {
@@ -509,6 +510,60 @@ func c12One(t *engine.T, sig string, params []c12Param, variadic reflect.Type, r
 }
 
 var _ = template.HTML("")
+
+type c12Err struct{ msg string }
+
+func (e *c12Err) Error() string { return e.msg }
+
+type c12ValErr struct{ msg string }
+
+func (e c12ValErr) Error() string { return e.msg }
+
+// c12ErrorShapes: the trailing error result may be declared with a concrete error type: nil does not fail the
+// render, non-nil does (whatever the declared type).
+func c12ErrorShapes(t *engine.T) {
+	bad := &c12Err{"concrete failure"}
+	helpers := map[string]interface{}{
+		"pnil":     func() (string, *c12Err) { return "v", nil },
+		"pbad":     func() (string, *c12Err) { return "v", bad },
+		"ponly":    func() *c12Err { return bad },
+		"ponlynil": func(s string) *c12Err { return nil },
+		"vbad":     func() (string, c12ValErr) { return "v", c12ValErr{"value failure"} },
+		"inil":     func() (string, error) { return "v", (*c12Err)(nil) }, // a typed nil inside the error interface
+		"ibad":     func() (string, error) { return "v", bad },
+		"three":    func() (string, int, error) { return "v", 1, bad },
+	}
+	cases := []struct {
+		src  string
+		fail bool
+		want string
+	}{
+		{`A<%= pnil() %>B`, false, "AvB"}, {`A<%= pbad() %>B`, true, ""}, {`A<%= ponly() %>B`, true, ""}, {`A<% ponlynil("x") %>B`, false, "AB"},
+		{`A<%= vbad() %>B`, true, ""}, {`A<%= inil() %>B`, true, ""}, {`A<%= ibad() %>B`, true, ""}, {`A<%= three() %>B`, true, ""},
+		{`A<% let q = pnil() %><%= q %>B`, false, "AvB"}, {`A<% let q = pbad() %>B`, true, ""}, {`A<%= for (i) in [1, 2] { %><%= pnil() %><% } %>B`, false, "AvvB"},
+		{`A<%= if (pnil() == "v") { %>y<% } %>B`, false, "AyB"}, {`A<%= if (pbad() == "v") { %>y<% } %>B`, true, ""},
+	}
+	for _, c := range cases {
+		c := c
+		t.Case("error-shape "+q(c.src), true, func() (string, *engine.Fail) {
+			ctx := plush.NewContext()
+			for k, v := range helpers {
+				ctx.Set(k, v)
+			}
+			out, err := Render(c.src, ctx)
+			if c.fail {
+				if err == nil || out != "" {
+					return "", engine.Failf("error-ignored", "the helper returned a non-nil error result but Render returned %q / %v", out, err)
+				}
+				return "invoked-error-result", nil
+			}
+			if err != nil || out != c.want {
+				return "", engine.Failf("mismatch", "a nil trailing error result: expected %q, got %q / %v", c.want, out, err)
+			}
+			return "invoked", nil
+		})
+	}
+}
 
 // c12Indexed: arguments of a method called on an indexed element are evaluated in the caller's scope: the
 // indexed variable still names the whole collection there.
